@@ -63,28 +63,42 @@ class Check:
         return failed
 
     # -- correspondence ----------------------------------------------------------------------
-    def differential(self, layer, probe_key, test, cases, name="cases", extra_env=None, project=None, timeout=1800):
-        """Runs the implementation (probe) and the model (extracted driver) on the same case lines.
-        Returns (impl_lines, model_lines, mismatches[(index, case, impl, model)]) or raises ProbeBroken."""
+    def run_impl(self, probe_key, test, cases, name="cases", extra_env=None, timeout=1800):
+        """Runs the real implementation (Go probe built from /repo's working tree) on the case lines."""
         cpath = os.path.join(self.work, name + ".txt")
         with open(cpath, "w") as f:
             for c in cases:
                 f.write(c + "\n")
         binp, err = C.build_probe(probe_key)
         if binp is None:
-            raise ProbeBroken("probe for package %s does not compile against the tree:\n%s" % (probe_key, err[-3000:]))
+            raise ProbeBroken("probe %s does not compile against the tree:\n%s" % (probe_key, err[-3000:]))
         ipath = os.path.join(self.work, name + ".impl")
-        mpath = os.path.join(self.work, name + ".model")
         if os.path.exists(ipath):
             os.remove(ipath)
         rc, out = C.run_probe(binp, test, cpath, ipath, extra_env=extra_env, timeout=timeout)
         impl = open(ipath).read().splitlines() if os.path.exists(ipath) else []
         if rc != 0 or len(impl) != len(cases):
             raise ProbeCrashed(rc, out, len(impl), cases[len(impl)] if len(impl) < len(cases) else None)
+        return impl
+
+    def run_model(self, layer, cases, name="cases"):
+        """Runs the extracted Coq model on the case lines."""
+        cpath = os.path.join(self.work, name + ".mtxt")
+        with open(cpath, "w") as f:
+            for c in cases:
+                f.write(c + "\n")
+        mpath = os.path.join(self.work, name + ".model")
         C.run_model(layer, cpath, mpath)
         model = open(mpath).read().splitlines()
         if len(model) != len(cases):
             raise C.BuildError("model produced %d lines for %d cases" % (len(model), len(cases)))
+        return model
+
+    def differential(self, layer, probe_key, test, cases, name="cases", extra_env=None, project=None, timeout=1800):
+        """Runs the implementation (probe) and the model (extracted driver) on the same case lines.
+        Returns (impl_lines, model_lines, mismatches[(index, case, impl, model)]) or raises ProbeBroken."""
+        impl = self.run_impl(probe_key, test, cases, name=name, extra_env=extra_env, timeout=timeout)
+        model = self.run_model(layer, cases, name=name)
         mism = []
         for i, (c, a, b) in enumerate(zip(cases, impl, model)):
             pa, pb = (project(a), project(b)) if project else (a, b)
